@@ -7,6 +7,7 @@
 #include "vf_req.h"
 #include "ref_pixel.h"
 #include "ref_ops.h"
+#include <math.h>
 
 /* which precision served a request: 0 nothing was composited (operator reduced to a no-op), 1 8-bit routines only, 2 a floating-point iterator took part */
 extern void (*pixman_verif_trace_composite) (pixman_implementation_t *imp, pixman_composite_func_t func, const pixman_fast_path_t *key);
@@ -73,8 +74,105 @@ static void paint (rq_image *im, int p, uint64_t cseed, int constant, int use565
 
 static const char *role_name[] = { "source", "mask", "destination" };
 
+/* Gradients: a gradient used directly, and the same gradient first rendered (OP_SRC) into an a8r8g8b8 image of the request's size which is then
+ * used in its place, must give the same picture.  This is where a gradient wrongly treated as opaque shows: samples for which the gradient is
+ * not defined (behind the apex of a cone, outside [0,1] without repeat) are transparent in the rendered copy. */
+static pixman_fixed_t gfr (vf_rng *r, double lo, double hi) { return (pixman_fixed_t)((lo + (hi - lo) * vf_unit (r)) * 65536.0); }
+static void gradient_case (long idx, vf_rng *r)
+{
+    pixman_op_t op = ro_ops[(idx / 7) % ro_nops]; if (ro_needs_float (op)) op = VF_PICK (r, ((pixman_op_t[]){ PIXMAN_OP_OVER, PIXMAN_OP_IN_REVERSE, PIXMAN_OP_OUT_REVERSE, PIXMAN_OP_ATOP, PIXMAN_OP_XOR, PIXMAN_OP_SRC, PIXMAN_OP_ADD, PIXMAN_OP_OVER_REVERSE }));
+    int as_mask = vf_chance (r, 1, 3), kind = (int)(vf_next (r) % 3);
+    int W = (int)vf_range (r, 6, 44), H = (int)vf_range (r, 3, 9);
+    pixman_format_code_t df = VF_PICK (r, ((pixman_format_code_t[]){ PIXMAN_a8r8g8b8, PIXMAN_a8r8g8b8, PIXMAN_x8r8g8b8, PIXMAN_r5g6b5, PIXMAN_a8 }));
+    vf_buf D1, D2; if (!vf_buf_alloc (&D1, df, W, H, 0, 0, vf_default_place (r))) return; if (!vf_buf_alloc (&D2, df, W, H, 0, 0, vf_default_place (r))) { vf_buf_free (&D1); return; }
+    rq_image tmpd; memset (&tmpd, 0, sizeof tmpd); tmpd.kind = RQ_BITS; tmpd.fmt = df; tmpd.w = W; tmpd.h = H; tmpd.buf = D1; vf_buf_fill_random (&D1, r); rq_make_premultiplied (&tmpd); memcpy (D2.base, D1.base, D1.bytes);
+    pixman_image_t *d1 = vf_buf_image (&D1), *d2 = vf_buf_image (&D2);
+    /* the gradient */
+    int ns = (int)vf_range (r, 1, 5), all_opaque = vf_chance (r, 2, 3); pixman_gradient_stop_t st[5]; double pos = vf_chance (r, 1, 2) ? 0 : vf_unit (r) * 0.4;
+    for (int i = 0; i < ns; i++) { if (i) pos += vf_unit (r) * (1.0 - pos) * 0.7; if (i == ns - 1 && vf_chance (r, 1, 2)) pos = 1.0; st[i].x = (pixman_fixed_t)(pos * 65536);
+        uint16_t a = all_opaque ? 0xffff : (uint16_t)vf_next (r); st[i].color.alpha = a; st[i].color.red = (uint16_t)(vf_next (r) % (a + 1u)); st[i].color.green = (uint16_t)(vf_next (r) % (a + 1u)); st[i].color.blue = (uint16_t)(vf_next (r) % (a + 1u)); }
+    pixman_point_fixed_t p1 = { gfr (r, -10, 40), gfr (r, -6, 14) }, p2 = { gfr (r, -10, 50), gfr (r, -6, 14) }; pixman_fixed_t r1 = gfr (r, 0, 12), r2 = gfr (r, 0, 40); const char *geom = "general";
+    if (kind == 1) { int g = (int)(vf_next (r) % 5);
+        if (g == 0) { p2 = p1; geom = "concentric"; }
+        else if (g == 1) { /* circles touching internally: |c2 - c1| == |r2 - r1| exactly */
+            static const int tri[][3] = { { 1, 0, 1 }, { 0, 1, 1 }, { 3, 4, 5 }, { -4, 3, 5 }, { -1, 0, 1 }, { 5, 12, 13 } }; const int *t3 = tri[vf_next (r) % 6]; pixman_fixed_t k = (pixman_fixed_t)vf_range (r, 1, 6) * 65536;
+            r1 = vf_chance (r, 1, 4) ? 0 : gfr (r, 0.5, 10); p2.x = p1.x + t3[0] * k; p2.y = p1.y + t3[1] * k; r2 = r1 + t3[2] * k; if (vf_chance (r, 1, 3)) { pixman_fixed_t t = r1; r1 = r2; r2 = t; pixman_point_fixed_t tp = p1; p1 = p2; p2 = tp; } geom = "touching"; }
+        else if (g == 2) { r1 = gfr (r, 0, 3); r2 = gfr (r, 0, 3); p2.x = p1.x + gfr (r, 6, 30); geom = "cone (circles apart)"; } }
+    pixman_image_t *grad = kind == 0 ? pixman_image_create_linear_gradient (&p1, &p2, st, ns) : kind == 1 ? pixman_image_create_radial_gradient (&p1, &p2, r1, r2, st, ns) : pixman_image_create_conical_gradient (&p1, gfr (r, -400, 400), st, ns);
+    if (!grad) { pixman_image_unref (d1); pixman_image_unref (d2); vf_buf_free (&D1); vf_buf_free (&D2); return; }
+    int repeat = (int)(vf_next (r) % 4); pixman_image_set_repeat (grad, repeat);
+    int tk = (int)(vf_next (r) % 3); pixman_transform_t tr; pixman_transform_init_identity (&tr);
+    if (tk == 1) { tr.matrix[0][2] = gfr (r, -5, 5); tr.matrix[1][2] = gfr (r, -5, 5); } else if (tk == 2) { tr.matrix[0][0] = gfr (r, 0.3, 2.5); tr.matrix[1][1] = gfr (r, 0.3, 2.5); tr.matrix[0][1] = gfr (r, -0.6, 0.6); tr.matrix[0][2] = gfr (r, -4, 4); }
+    if (tk) pixman_image_set_transform (grad, &tr);
+    int ca = as_mask && vf_chance (r, 1, 2); if (ca) pixman_image_set_component_alpha (grad, 1);
+    /* the request: entirely inside the destination, no clip, so that both routes fetch the same gradient spans */
+    int w = (int)vf_range (r, 1, W), h = (int)vf_range (r, 1, H), dx = (int)vf_range (r, 0, W - w), dy = (int)vf_range (r, 0, H - h), gx = (int)vf_range (r, -25, 40), gy = (int)vf_range (r, -10, 14);
+    pixman_color_t oc = { (uint16_t)vf_next (r), (uint16_t)vf_next (r), (uint16_t)vf_next (r), (uint16_t)vf_next (r) }; if (vf_chance (r, 1, 2)) oc.alpha = 0xffff; if (oc.red > oc.alpha) oc.red = oc.alpha; if (oc.green > oc.alpha) oc.green = oc.alpha; if (oc.blue > oc.alpha) oc.blue = oc.alpha;
+    pixman_image_t *other = (as_mask || vf_chance (r, 1, 3)) ? pixman_image_create_solid_fill (&oc) : NULL;
+    pixman_image_t *copy = pixman_image_create_bits (PIXMAN_a8r8g8b8, w, h, NULL, 0);
+    static const char *kn[] = { "linear", "radial", "conical" };
+    vf_case_desc ("gradient %s (%s) as %s%s: p1=(%x,%x) p2=(%x,%x) r1=%x r2=%x stops=%d%s repeat=%d transform=%d op=%s dst=%s %dx%d rect=(%d,%d %dx%d) gradient origin (%d,%d)", kn[kind], geom, as_mask ? "mask" : "source", ca ? " (component alpha)" : "",
+                  (unsigned)p1.x, (unsigned)p1.y, (unsigned)p2.x, (unsigned)p2.y, (unsigned)r1, (unsigned)r2, ns, all_opaque ? " all opaque" : "", repeat, tk, ro_op_name (op), rp_name (df), W, H, dx, dy, w, h, gx, gy);
+    vf_inflight ("gradient %s as %s op=%s", kn[kind], as_mask ? "mask" : "source", ro_op_name (op));
+    if (copy && (other || !as_mask)) {
+        if (!as_mask) { pixman_image_composite32 (op, grad, other, d1, gx, gy, 0, 0, dx, dy, w, h);
+                        pixman_image_composite32 (PIXMAN_OP_SRC, grad, NULL, copy, gx, gy, 0, 0, 0, 0, w, h); pixman_image_composite32 (op, copy, other, d2, 0, 0, 0, 0, dx, dy, w, h); }
+        else { pixman_image_composite32 (op, other, grad, d1, 0, 0, gx, gy, dx, dy, w, h);
+               pixman_image_set_component_alpha (grad, 0); pixman_image_composite32 (PIXMAN_OP_SRC, grad, NULL, copy, gx, gy, 0, 0, 0, 0, w, h); if (ca) pixman_image_set_component_alpha (copy, 1);
+               pixman_image_composite32 (op, other, copy, d2, 0, 0, 0, 0, dx, dy, w, h); }
+        uint32_t m = rp_defined_mask (df); int bad = 0;
+        for (int y = 0; y < H && !bad; y++) for (int x = 0; x < W; x++) { uint32_t a = vf_get_px (vf_buf_row (&D1, y), D1.bpp, x) & m, b = vf_get_px (vf_buf_row (&D2, y), D2.bpp, x) & m;
+            if (a != b) { char key[120]; snprintf (key, sizeof key, "C09:gradient-vs-rendered-copy:%s:%s:%s", kn[kind], as_mask ? "mask" : "source", ro_op_name (op));
+                vf_violation (key, "pixel (%d,%d): %08x with the gradient used directly, %08x with its rendered a8r8g8b8 copy", x, y, a, b); bad = 1; break; } }
+        vf_count ("evaluations", (long)W * H); vf_count ("gradient_groups", 1); if (kind == 1 && !strcmp (geom, "touching")) vf_count ("gradient_groups_touching_circles", 1);
+        vf_label ("gradient_group", "%s/%s/%s/repeat%d%s", kn[kind], geom, as_mask ? "mask" : "source", repeat, all_opaque ? "/opaque-stops" : "");
+        vf_cell ("cells", vf_mix (vf_mix (7000 + kind * 8 + repeat, op), vf_mix ((uint64_t)df, as_mask * 4 + all_opaque * 2 + (tk > 0))));
+    }
+    if (copy) pixman_image_unref (copy); if (other) pixman_image_unref (other);
+    pixman_image_unref (grad); pixman_image_unref (d1); pixman_image_unref (d2); vf_buf_free (&D1); vf_buf_free (&D2);
+}
+
+/* A solid colour whose 16-bit alpha is just below 1 (0xff00..0xfffe: 0xff after truncation to 8 bits) is not opaque: on a destination of more than
+ * 8 bits per channel it must give the same picture as a repeating rgba_float pixel holding the same colour. */
+static void near_opaque_solid_case (long idx, vf_rng *r)
+{
+    pixman_op_t op = ro_ops[(idx / 7) % ro_nops]; if (ro_is_hsl (op)) op = PIXMAN_OP_OVER;
+    int as_mask = vf_chance (r, 1, 3); int W = (int)vf_range (r, 2, 20), H = (int)vf_range (r, 1, 4);
+    pixman_format_code_t df = VF_PICK (r, ((pixman_format_code_t[]){ PIXMAN_rgba_float, PIXMAN_a2r10g10b10, PIXMAN_rgba_float, PIXMAN_a2b10g10r10 }));
+    pixman_color_t c; c.alpha = vf_chance (r, 3, 4) ? (uint16_t)vf_range (r, 0xff00, 0xfffe) : 0xffff; c.red = (uint16_t)(vf_next (r) % (c.alpha + 1u)); c.green = (uint16_t)(vf_next (r) % (c.alpha + 1u)); c.blue = (uint16_t)(vf_next (r) % (c.alpha + 1u));
+    pixman_image_t *solid = pixman_image_create_solid_fill (&c), *px = pixman_image_create_bits (PIXMAN_rgba_float, 1, 1, NULL, 0);
+    pixman_image_t *d1 = pixman_image_create_bits (df, W, H, NULL, 0), *d2 = pixman_image_create_bits (df, W, H, NULL, 0);
+    pixman_color_t oc = { (uint16_t)vf_next (r), (uint16_t)vf_next (r), (uint16_t)vf_next (r), (uint16_t)vf_next (r) }; if (oc.red > oc.alpha) oc.red = oc.alpha; if (oc.green > oc.alpha) oc.green = oc.alpha; if (oc.blue > oc.alpha) oc.blue = oc.alpha;
+    pixman_image_t *other = as_mask ? pixman_image_create_solid_fill (&oc) : NULL;
+    if (solid && px && d1 && d2 && (other || !as_mask)) {
+        float *f = (float *)pixman_image_get_data (px); f[0] = c.red / 65535.0f; f[1] = c.green / 65535.0f; f[2] = c.blue / 65535.0f; f[3] = c.alpha / 65535.0f; pixman_image_set_repeat (px, PIXMAN_REPEAT_NORMAL);
+        /* destination content: premultiplied, mid-range alpha so that every term of the equations matters */
+        int n = pixman_image_get_stride (d1) * H / 4; uint32_t *b1 = pixman_image_get_data (d1), *b2 = pixman_image_get_data (d2);
+        if (df == PIXMAN_rgba_float) { float *q = (float *)b1; for (int i = 0; i < W * H; i++) { float a = 0.3f + 0.7f * (float)vf_unit (r); q[4 * i + 3] = a; for (int k = 0; k < 3; k++) q[4 * i + k] = a * (float)vf_unit (r); } }
+        else for (int i = 0; i < n; i++) { uint32_t a = 2 + (uint32_t)(vf_next (r) % 2), ch = 1023 * a / 3; b1[i] = a << 30 | (uint32_t)(vf_next (r) % (ch + 1)) << 20 | (uint32_t)(vf_next (r) % (ch + 1)) << 10 | (uint32_t)(vf_next (r) % (ch + 1)); }
+        memcpy (b2, b1, (size_t)n * 4);
+        vf_case_desc ("solid (a=%04x r=%04x g=%04x b=%04x) as %s vs a repeating rgba_float pixel of the same colour, op=%s dst=%s %dx%d", c.alpha, c.red, c.green, c.blue, as_mask ? "mask" : "source", ro_op_name (op), rp_name (df), W, H);
+        vf_inflight ("near-opaque solid as %s op=%s dst=%s", as_mask ? "mask" : "source", ro_op_name (op), rp_name (df));
+        if (!as_mask) { pixman_image_composite32 (op, solid, NULL, d1, 0, 0, 0, 0, 0, 0, W, H); pixman_image_composite32 (op, px, NULL, d2, 0, 0, 0, 0, 0, 0, W, H); }
+        else { pixman_image_composite32 (op, other, solid, d1, 0, 0, 0, 0, 0, 0, W, H); pixman_image_composite32 (op, other, px, d2, 0, 0, 0, 0, 0, 0, W, H); }
+        int bad = 0; double worst = 0;
+        for (int i = 0; i < W * H && !bad; i++) for (int k = 0; k < 4; k++) {
+            double a, b, tol;
+            if (df == PIXMAN_rgba_float) { int st = pixman_image_get_stride (d1) / 4; int x = i % W, y = i / W; a = ((float *)b1)[y * st + 4 * x + k]; b = ((float *)b2)[y * st + 4 * x + k]; tol = 6e-4; }
+            else { int st = pixman_image_get_stride (d1) / 4; uint32_t pa = b1[(i / W) * st + i % W], pb = b2[(i / W) * st + i % W]; int sh = k == 3 ? 30 : 20 - 10 * k; uint32_t mk = k == 3 ? 3 : 1023; a = (pa >> sh) & mk; b = (pb >> sh) & mk; tol = 1.0; }
+            double dev = fabs (a - b); if (dev > worst) worst = dev;
+            if (!(dev <= tol)) { char key[120]; snprintf (key, sizeof key, "C09:near-opaque-solid-vs-float-pixel:%s:%s", as_mask ? "mask" : "source", ro_op_name (op));
+                vf_violation (key, "pixel %d channel %d: %.6f with the solid, %.6f with the repeating float pixel of the same colour (alpha %04x)", i, k, a, b, c.alpha); bad = 1; break; } }
+        vf_count ("evaluations", (long)W * H); vf_count ("near_opaque_solid_groups", 1);
+        vf_cell ("cells", vf_mix (vf_mix (8000 + as_mask, op), vf_mix ((uint64_t)df, c.alpha == 0xffff)));
+    }
+    if (solid) pixman_image_unref (solid); if (px) pixman_image_unref (px); if (d1) pixman_image_unref (d1); if (d2) pixman_image_unref (d2); if (other) pixman_image_unref (other);
+}
+
 static void c09_case (long idx, vf_rng *r)
 {
+    if (idx % 7 == 6) { gradient_case (idx, r); return; }
+    if (idx % 14 == 5) { near_opaque_solid_case (idx, r); return; }
     pixman_op_t op = ro_ops[idx % ro_nops];
     int role = (int)((idx / ro_nops) % 3);
     rq_request base; rq_generate (r, &base, RQP_NARROW_ONLY | RQP_NO_INDEXED | RQP_NO_ALPHAMAP | RQP_NO_ACCESSORS | RQP_NO_GRADIENT);
